@@ -15,6 +15,7 @@ def vec_unit(exp, name, shapes, ops=('Add', 'Sub', 'Mul', 'Div'), extra=None, ma
             extra(u, sh)
     for ms in mats:
         types.append('%s<crate::pre::R>' % ms.q)
+    types.append('crate::pre::R')
     u.add_root(veccore.into_axioms(types))
     u.module_prologue.append('broadcast use crate::group_into_refl;')
     return u
